@@ -2,10 +2,12 @@
 //!
 //! usage: vverif <Cxx> quick|thorough [--replay FILE] [--shard i/n --out FILE]
 
+mod daemon_fx;
 mod engine;
 mod fdtrack;
 mod gen;
 mod props;
+mod rawclient;
 mod rawpeer;
 mod rec_backend;
 mod refpred;
